@@ -28,7 +28,7 @@ def describe(rep):
     rep.rule = 'case = (node family, quadrature type, node count, interval); per case 2 SMT queries (QF_LRA) over all polynomial data + concrete structural clauses'
     rep.assume('tolerance 1e-11 * interval length (1e-9 for EQUID / CHEBY with M >= 7: conditioning of the float tables)',
                'polynomials are written in the normalised variable (t - tleft)/(tright - tleft) with coefficients in [-1,1]')
-    rep.out_of_scope('M > 8 (quick: 5)', 'arbitrary intervals are enumerated/sampled, not solved', 'everything inside qmat')
+    rep.out_of_scope('M > 8 (quick: 5)', 'arbitrary intervals are enumerated/sampled, not solved (the list includes zero end points, a large offset, short intervals and intervals whose length does not round-trip: (b - a) + a != b)', 'everything inside qmat')
 
 
 def tasks(tier, seed):
